@@ -13,7 +13,7 @@ func TestDbgPS(t *testing.T) {
 	p := program{{path: 4, style: 7, view: 3, cs: 0}}
 	c := p.canvas()
 	data := backends[2].render(c)
-	dl, _ := interpretPS(data, true)
+	dl, _, _ := interpretPS(data)
 	for _, it := range dl.items {
 		fmt.Println(it.role, it.src)
 	}
